@@ -51,6 +51,12 @@ def mh_prop(key, st, step):
     return gs.MHProposal({"sigma_transformed": cur + step * z}, log_correction=0.1 * step * z)
 
 
+def gibbs_beta(key, st):
+    """a second Gibbs block that reads the block the first one has just updated"""
+    s_ = st["sigma_transformed_value"].value
+    return {"beta": jnp.array([0.3, -0.1]) * s_ + 0.2 * jax.random.normal(key, (2,))}
+
+
 def mh_prop_node(key, st, step):
     """as mh_prop, but the proposal is keyed by the value node's name"""
     import liesel.goose as gs
@@ -78,6 +84,9 @@ def make_sequence(kind):
         elif kind == "liesel:RW+MH(position keys are value-node names)":
             ks = [gs.RWKernel(["beta_value"]), gs.MHKernel(["sigma_transformed_value"], mh_prop_node)]
             kst = [RWKernelState(0.4), RWKernelState(0.3)]
+        elif kind == "liesel:Gibbs+Gibbs(second reads the first's block)":
+            ks = [gs.GibbsKernel(["sigma_transformed"], gibbs_fn), gs.GibbsKernel(["beta"], gibbs_beta)]
+            kst = [{}, {}]
         elif kind == "liesel:RW+Gibbs":
             ks = [gs.RWKernel(["beta"]), gs.GibbsKernel(["sigma_transformed"], gibbs_fn)]
             kst = [RWKernelState(0.4), {}]
@@ -287,8 +296,8 @@ def obligations(kind, e_seq, e_orc, ks, param_keys, s_free, has_derived):
 
 def main():
     chk = Check("C09")
-    kinds = ["liesel:RW+Gibbs", "liesel:NUTS+MH", "dict:RW+MH", "liesel:Gibbs+RW+RW(ids not sorted)", "liesel:Gibbs(int-initialised parameter)+RW", "liesel:RW+MH(position keys are value-node names)"] if chk.tier == "quick" else \
-        ["liesel:RW+Gibbs", "liesel:IWLS+RW", "liesel:NUTS+MH", "liesel:Gibbs+RW+RW(ids not sorted)", "dict:RW+MH", "dict:NUTS+RW", "liesel:Gibbs(int-initialised parameter)+RW", "liesel:RW+MH(position keys are value-node names)"]
+    kinds = ["liesel:RW+Gibbs", "liesel:NUTS+MH", "dict:RW+MH", "liesel:Gibbs+RW+RW(ids not sorted)", "liesel:Gibbs(int-initialised parameter)+RW", "liesel:RW+MH(position keys are value-node names)", "liesel:Gibbs+Gibbs(second reads the first's block)"] if chk.tier == "quick" else \
+        ["liesel:RW+Gibbs", "liesel:IWLS+RW", "liesel:NUTS+MH", "liesel:Gibbs+RW+RW(ids not sorted)", "dict:RW+MH", "dict:NUTS+RW", "liesel:Gibbs(int-initialised parameter)+RW", "liesel:RW+MH(position keys are value-node names)", "liesel:Gibbs+Gibbs(second reads the first's block)"]
     obs = []
     for kind in kinds:
         res = chk.guarded(f"{kind}:trace", f"[{kind}] tracing the kernel sequence", scenario, chk, kind)
